@@ -226,7 +226,6 @@ class AdaptiveFilter(KalmanFilter):
             self.logger.warning(msg)
             return False
 
-        self.flags |= FilterFlag.ADAPTIVE_ESTIMATION_START
         msg = f"{self.__class__.__name__} beginning for {self.target_id} at {self.time} with {self.num_models} models"
         self.logger.info(msg)
 
